@@ -32,8 +32,8 @@ CLAIMS = {
           "Coq proof (continuous order conditions over Qc + real-number link to the model's interpolant) + bit-exact correspondence + one-step slope experiment", "3/C07", True),
  "C08": C("Coq theorems: a reported event is a step endpoint with its stored state or (t_e, interpolant(t_e)); events of a step are a stable sort (permutation, ordered) of the detected ones; direction filter truth table (real semantics); every reported event time and every point at which the event function is evaluated during the refinement lies inside the accepted step, for any event function, converged or not (real semantics of the Brent variant). Not theorems: that the bracket keeps a sign change, convergence within 100 iterations." + TIE,
           "Coq proof (handler model) + bit-exact correspondence incl. every Brent iterate", "3/C08", True),
- "C09": C("Coq theorems (real semantics): strictly opposite signs are always detected by All and by the matching one-sided filter only; equal strict signs never. Exactly-one-event for a single root is checked on grid-aware placements." + TIE,
-          "Coq proof of the detection predicate + bit-exact correspondence", "3/C09", True),
+ "C09": C("Coq theorems: (any number type, event functions, interpolant, refinement outcome; no terminal event) in every accepted step exactly one event of function i is recorded when the direction-aware sign test fires on g_i at the two step ends and none otherwise, and the values remembered for the next step are the current ones; (real semantics) strictly opposite signs are always detected by All and by the matching one-sided filter only, equal strict signs never. Location of the event at the root of a single-root function is checked on grid-aware placements (replay + oracle)." + TIE,
+          "Coq proof of the detection pass (count invariant) and of the detection predicate + bit-exact correspondence", "3/C09", True),
  "C10": C("Coq theorems (any number type): a terminal event makes the newest sample the event point, the handler returns Interrupt iff a terminal event fired and never without a terminal configuration." + TIE,
           "Coq proof (handler model) + bit-exact correspondence", "3/C10", True),
  "C11": C("Coq theorems: step-budget count (nstep <= max_steps+1; NeedLargerNMax only when the budget is used up) and budget-independence of an iteration below the budget, i.e. bit-identical prefix (DOPRI5, DOP853, RK23, Radau, BDF; any number type, kernel, callback); max_step bound with the 1% landing stretch (DOPRI5, DOP853; RK23 without stretch; real semantics, any kernel); RK4 uses exactly the given step. Not theorems: max_step / first_step for Radau and BDF, the automatic initial step." + TIE,
